@@ -7,7 +7,7 @@ CONSTANTS
     Wraps = {"bare"}
     LeafSel = "core"
     FullValues = FALSE
-    Kinds = {"s", "i", "f", "b", "y", "e", "i32", "l", "ts", "ps", "pi", "pf", "pb", "ns", "sd", "id", "fd", "bd", "nsd", "nid", "nfd", "nbd", "psd", "pid", "pfd", "pbd"}
+    Kinds = {"s", "i", "b", "l", "ps", "pi", "ns", "sd", "nid", "nbd", "psd", "pfd"}
     MaxFields = 3
     Vias = {"direct", "pipe", "http"}
     Witness = FALSE
